@@ -24,6 +24,12 @@ theorem not_space_of_digit (e : Env) {c : Char} (h : isAsciiDigit c = true) :
   simp [Env.isSpace, ha]
   simp [isAsciiDigit, isAsciiSpace] at *; omega
 
+theorem not_intSpace_of_digit (e : Env) {c : Char} (h : isAsciiDigit c = true) :
+    e.isIntSpace c = false := by
+  have ha := isAscii_of_digit h
+  simp [Env.isIntSpace, ha]
+  simp [isAsciiDigit] at *; omega
+
 theorem isDigit_of_digit (e : Env) {c : Char} (h : isAsciiDigit c = true) :
     e.isDigit c = true := by
   simp [Env.isDigit, isAscii_of_digit h, h]
@@ -97,10 +103,34 @@ theorem strip_digits (e : Env) (s : Str) (h : AllD s) : e.strip s = s := by
   · intro c hc
     exact not_space_of_digit e (h c (List.mem_of_mem_getLast? hc))
 
+/-- `int()`'s own stripping is the identity on strings whose ends are not blank -/
+theorem intStrip_eq (e : Env) (s : Str)
+    (h1 : ∀ c, s.head? = some c → e.isIntSpace c = false)
+    (h2 : ∀ c, s.getLast? = some c → e.isIntSpace c = false) : e.intStrip s = s := by
+  have hl : s.dropWhile e.isIntSpace = s := by
+    cases s with
+    | nil => rfl
+    | cons c cs => exact dropWhile_head_false _ _ _ (h1 c rfl)
+  unfold Env.intStrip
+  rw [hl]
+  cases hr : s.reverse with
+  | nil => simp at hr; simp [hr]
+  | cons c cs =>
+    have : s.getLast? = some c := by
+      rw [← List.head?_reverse, hr]; rfl
+    rw [dropWhile_head_false _ _ _ (h2 c this), ← hr, List.reverse_reverse]
+
+theorem intStrip_digits (e : Env) (s : Str) (h : AllD s) : e.intStrip s = s := by
+  apply intStrip_eq
+  · intro c hc
+    exact not_intSpace_of_digit e (h c (List.mem_of_mem_head? hc))
+  · intro c hc
+    exact not_intSpace_of_digit e (h c (List.mem_of_mem_getLast? hc))
+
 theorem pyInt_digits (e : Env) (s : Str) (h : AllD s) (hne : s ≠ []) :
     e.pyInt s = some ((dval s : Nat) : Int) := by
   unfold Env.pyInt
-  rw [strip_digits e s h]
+  rw [intStrip_digits e s h]
   cases s with
   | nil => exact absurd rfl hne
   | cons c cs =>
